@@ -1,6 +1,6 @@
 (* C07 - Clones are faithful, self-contained and independent of the original. Property theorems only. *)
 From Coq Require Import List.
-From SV Require Import Base.Base IR.State IR.NS IR.Ops Xform.Clone Proofs.CloneSmall Proofs.C01_full Proofs.Inv1a Proofs.Inv2a Proofs.CloneFrame Proofs.CloneStart Proofs.NsInv Proofs.UniqInv.
+From SV Require Import Base.Base IR.State IR.NS IR.Ops Xform.Clone Proofs.CloneSmall Proofs.C01_full Proofs.Inv1a Proofs.Inv2a Proofs.CloneFrame Proofs.CloneStart Proofs.NsInv Proofs.InvW Proofs.UniqInv Proofs.CloneFaith Proofs.CloneFull.
 Import ListNotations.
 
 (* cloning a wire: one fresh element, no pins listed, nothing else changes *)
@@ -68,6 +68,30 @@ Theorem C07_definition_clone_well_formed : forall ops d,
 Proof. exact clone_definition_reachable. Qed.
 Print Assumptions C07_definition_clone_well_formed.
 
+(* "every link - instance references, reference sets, outer-pin/inner-pin pairs, pin-wire joins -
+   resolves inside the copy, so the copy is well-formed": in every reachable state a completed
+   Definition.clone leaves the whole structural invariant of C01/C02 in force for the whole store -
+   every wire of the copy lists exactly the (copied) pins that report it, once; every copied instance's
+   outer-pin table mirrors the ports of the definition it references; and the same still holds for
+   every object of the original design. *)
+Theorem C07_definition_clone_keeps_invariant : forall ops d,
+  let s := run ops init in
+  d < next s -> kind_of s d = Some KDefinition -> snd (fst (clone_definition s d)) = None ->
+  Inv (fst (fst (clone_definition s d))).
+Proof. exact clone_definition_reachable_inv. Qed.
+Print Assumptions C07_definition_clone_keeps_invariant.
+
+(* faithfulness of Definition._clone, the statement the invariant rests on: the memo maps the copied
+   objects of the source injectively to fresh objects; each copied pin points at the image of the wire
+   its source points at, each copied wire lists the images of the pins its source lists, each copied
+   instance carries its source's outer-pin table and reference with wires replaced by their images;
+   fresh objects that are not such images carry nothing; pin-wire fields of old objects are unchanged *)
+Theorem C07_definition_clone_faithful : forall s0 d G m d',
+  Inv1a s0 -> InvT s0 -> Fresh.Fresh s0 -> FieldT.FT s0 -> d < next s0 -> kind_of s0 d = Some KDefinition ->
+  def_clone1 (s0, nil) d = ((G, m, d'), None) -> Faithful s0 G m.
+Proof. exact def_clone1_faithful. Qed.
+Print Assumptions C07_definition_clone_faithful.
+
 (* non-vacuity of the hypotheses: a cell with a wired child instance is cloned; the copy's child (11)
    references the same leaf cell and is registered with it next to the original child (6) *)
 Example C07_definition_clone_sample :
@@ -76,7 +100,7 @@ Example C07_definition_clone_sample :
                OCreate RCables 5 None [] 1 None; OConnect 8 (POut 6 4) None ] in
   let s := run ops init in
   let r := clone_definition s 5 in
-  next s = 9 /\ snd (fst r) = None /\ snd r = 9 /\ kids (fst (fst r)) RChildren 9 = [12] /\
+  next s = 9 /\ kind_of s 5 = Some KDefinition /\ snd (fst r) = None /\ snd r = 9 /\ kids (fst (fst r)) RChildren 9 = [12] /\
   iref (fst (fst r)) 12 = Some 2 /\ drefs (fst (fst r)) 2 = [6; 12] /\ drefs (fst (fst r)) 9 = [] /\
   wpins (fst (fst r)) 11 = [POut 12 4].
 Proof. vm_compute. repeat split. Qed.
